@@ -1,6 +1,6 @@
 #!/bin/sh
 # Run every seeded change against the quick check of its own property; write seeded/RESULTS.md
-OUT=/verif/seeded/RESULTS.md
+OUT=${OUT:-/verif/seeded/RESULTS.md}
 {
 echo "# Seeded changes vs. checks"
 echo
